@@ -996,7 +996,7 @@ func runSender(prop string, tr *Trace, sc *Script, rec *Recorder, scratch string
 	gen := func(r *Rand) (Op, bool) {
 		labels := s.w.ParkedLabels()
 		wts := []int{int(cfg["w_l1mine"]), int(cfg["w_l1fin"]), int(cfg["w_l1sync"]), int(cfg["w_l2block"]), int(cfg["w_epoch"]), int(cfg["w_time"]),
-			int(cfg["w_rel"]), int(cfg["w_move"]), int(cfg["w_fault"]), int(cfg["w_lost"]), int(cfg["w_crash"]), int(cfg["w_losedb"]), int(cfg["w_savefault"]), int(cfg["w_pvodd"]), int(cfg["w_opt"]), int(cfg["w_crashsubmit"]), int(cfg["w_contradict"]), int(cfg["w_l2reorg"]), int(cfg["w_l2reorg"]), int(cfg["w_l1reorg"])}
+			int(cfg["w_rel"]), int(cfg["w_move"]), int(cfg["w_fault"]), int(cfg["w_lost"]), int(cfg["w_crash"]), int(cfg["w_losedb"]), int(cfg["w_savefault"]), int(cfg["w_pvodd"]), int(cfg["w_opt"]), int(cfg["w_crashsubmit"]), int(cfg["w_contradict"]), int(cfg["w_l2reorg"]), int(cfg["w_l2reorg"]), int(cfg["w_l1reorg"]), int(cfg["w_savefault"])}
 		if s.l1.HeadNum() <= s.l1.Finalized {
 			wts[19] = 0
 		}
@@ -1029,8 +1029,10 @@ func runSender(prop string, tr *Trace, sc *Script, rec *Recorder, scratch string
 		if !hasSubmit {
 			wts[9] = 0
 			wts[15] = 0
+			wts[20] = 0
 		} else {
 			wts[15] *= 6 // the window is short: take it when it is open
+			wts[20] *= 4
 		}
 		switch r.Pick(wts) {
 		case 19:
@@ -1067,6 +1069,8 @@ func runSender(prop string, tr *Trace, sc *Script, rec *Recorder, scratch string
 			return Op{K: "opt"}, true
 		case 15:
 			return Op{K: "crashsubmit"}, true
+		case 20:
+			return Op{K: "failsave", A: []int64{int64(1 + r.Intn(8))}}, true
 		case 16:
 			return Op{K: "contradict", A: []int64{int64(r.Intn(3))}}, true
 		case 18:
@@ -1277,6 +1281,53 @@ func runSender(prop string, tr *Trace, sc *Script, rec *Recorder, scratch string
 				return v
 			}
 			rec.Step("cs")
+		case "failsave":
+			// the Agglayer accepts the certificate and the node's attempt to record it fails at its k-th statement: at
+			// that instant the durable certificate tables still are what they were before the attempt ("a failed write
+			// leaves the previous record intact"); the node's retry of the write then goes through
+			var p *parkedCall
+			for _, q := range s.w.Parked() {
+				if q.method == "SubmitCertificate" {
+					p = q
+				}
+			}
+			if p == nil || s.faultArmed {
+				return nil
+			}
+			before, err1 := s.readRows("certificate_info")
+			beforeH, err2 := s.readRows("certificate_info_history")
+			if err1 != nil || err2 != nil {
+				return &Violation{Oracle: "harness", Detail: fmt.Sprintf("certificate tables: %v %v", err1, err2)}
+			}
+			k := int(op.Arg(0))
+			plan := &FaultPlan{FailAt: k, OneShot: true, YieldAt: k}
+			inStep := true
+			plan.Yield = func() {
+				if !inStep {
+					return
+				}
+				now, e1 := s.readRows("certificate_info")
+				nowH, e2 := s.readRows("certificate_info_history")
+				if e1 != nil || e2 != nil {
+					return // the tables cannot be read at this instant (locked): not judged
+				}
+				rec.Stats.Inc("failed_writes_judged_at_the_failing_statement")
+				if js(now) != js(before) || js(nowH) != js(beforeH) {
+					s.fail("storage", "c13/failed-write-changed-record", "recording the accepted certificate failed at its statement %d; at that instant the durable certificate tables already differ from what they held before the attempt: %d/%d rows (history %d/%d)", k, len(now), len(before), len(nowH), len(beforeH))
+				}
+			}
+			ArmFault(s.dbPath, plan)
+			s.faultArmed = true
+			s.w.Release(p, replyOK)
+			// what the node does before it blocks again is its first attempt to record the certificate; a statement
+			// counted later belongs to something else and is not judged by this rule
+			inStep = false
+			if plan.Fired == 0 {
+				DisarmFault(s.dbPath)
+				s.faultArmed = false
+				rec.Stats.Inc("failsave_attempt_had_fewer_statements")
+			}
+			rec.Step("fs")
 		case "opt":
 			s.optOn = !s.optOn
 			rec.Stats.Inc("optimistic_mode_toggled")
